@@ -187,3 +187,43 @@ Fixpoint tbl_hash (tbl : list (list N * N)) (b : list N) : N :=
   | [] => 0
   | (b', h) :: tbl' => if key_eqb b b' then h else tbl_hash tbl' b
   end.
+
+(* ---- felix/dataplane/linux/proxy_neigh_mgr.go: how the manager feeds and asks its ring -------------
+   OnUpdate for proto.HostMetadataUpdate / proto.HostMetadataRemove, the dirty flag, CompleteDeferredWork's
+   reset of it, and selectNodeForIP.  The ring is New[string](WithReplicas(100)) (default hash, 1 probe)
+   and stores value = hostname.  Everything else the manager does (pools, services, interfaces, ARP/NDP
+   listeners) is not modelled. *)
+Inductive hmsg := HUpdate (host v4 v6 : list N) | HRemove (host : list N).
+
+Section Caller.
+  Variable hash : list N -> N.
+
+  Record pnm := mkP { p_v6 : bool; p_host : key; p_ring : ring key; p_dirty : bool }.
+
+  Definition pnm_new (v6 : bool) (host : key) : pnm := mkP v6 host (new key 100 1) false.
+
+  Definition pnm_update (m : pnm) (msg : hmsg) : pnm :=
+    match msg with
+    | HUpdate h a4 a6 =>
+        match (if p_v6 m then a6 else a4) with
+        | [] => m                                   (* no address of this manager's family: skipped *)
+        | _ :: _ =>
+            let before := len key (p_ring m) in
+            let r' := insert hash key (p_ring m) h h in
+            mkP (p_v6 m) (p_host m) r' (p_dirty m || negb (Z.eqb (len key r') before))
+        end
+    | HRemove h =>
+        let before := len key (p_ring m) in
+        let r' := remove key (p_ring m) h in
+        mkP (p_v6 m) (p_host m) r' (p_dirty m || negb (Z.eqb (len key r') before))
+    end.
+
+  (* CompleteDeferredWork, as far as this state goes (no listeners, nothing desired): dirty := false *)
+  Definition pnm_complete (m : pnm) : pnm := mkP (p_v6 m) (p_host m) (p_ring m) false.
+
+  (* selectNodeForIP: owner, ok := nodeRing.Lookup(ip); selected := ok && owner == hostname *)
+  Definition pnm_select (m : pnm) (ip : key) : pnm * bool :=
+    let (r', res) := lookup hash key [] (p_ring m) ip in
+    (mkP (p_v6 m) (p_host m) r' (p_dirty m),
+     match res with LSome o => key_eqb o (p_host m) | _ => false end).
+End Caller.
